@@ -452,7 +452,7 @@ class Ctx:
         if name in self._bins:
             return self._bins[name]
         out = os.path.join(self.run, name + ".test")
-        cmd = [VGO, "test", "-c", "-vet=off", "-tags", tags, "-overlay", self.overlay(only), "-o", out]
+        cmd = [VGO, "test", "-c", "-trimpath", "-vet=off", "-tags", tags, "-overlay", self.overlay(only), "-o", out]
         if race:
             cmd.append("-race")
         cmd.append("./" + pkg.strip("./"))
